@@ -206,3 +206,26 @@ CHECKS["C14"] = dict(
     assumptions=["default RLIMIT_STACK (8 MiB)"],
 )
 ENGINES.append(dict(name="E-COMP", path="harness/comp.cpp", serves_properties=["C14"], kind_free_text="exhaustive write/rotate sequence enumeration on the real compressing writers"))
+
+CHECKS["C15"] = dict(
+    level="fault_enumeration", engine="E-FAULT",
+    technique="exhaustive crash-point enumeration on the implementation: the process is killed immediately before every output-related system call (write, writev, rename) of each scenario, with the calls interposed in the harness executable",
+    level_text="18 scenarios ({plain, gzip, xz} x {single output closed by destruction; three rotations with and without export; rotation onto a name that already holds an older complete file; rotation back onto the first name; destruction with buffered but unwritten data; destruction with nothing written}), records of 3 KB so that blocks span several encoder flushes and the ofstream buffer spills mid-block. A trace run records the K output calls; for every k in 1..K a forked child runs the scenario and _exits immediately before its k-th call; afterwards every directory entry not ending in .part must be byte-identical to one of the complete versions that name legitimately holds (the pre-existing file or a closed output of the uninterrupted run, each validated as a complete stream and valid C-DNS file). The trace run also checks that every data write targets a *.part path.",
+    level_note="Crash model = process death between system calls (the property's model); no power loss / page cache reasoning. Trusted: path of a descriptor read from /proc/self/fd at call time; write/writev/rename are the only output calls libstdc++ and the library issue (verified by the trace containing all bytes).",
+    stages=[dict(harness="fault", variant="plain", args=["--mode", "crash"], link=["-rdynamic"])],
+    rule="(scenario, k) pairs enumerated exhaustively; a run is non-trivial when the child really stopped at call k (exit code 77), otherwise it is reported as a harness error",
+    bound_quick="all 18 scenarios, every k", bound_thorough="same (the space is small and fully covered in the quick tier)",
+    assumptions=["tmpfs scratch directory"],
+)
+
+CHECKS["C16"] = dict(
+    level="fault_enumeration", engine="E-FAULT",
+    technique="exhaustive fault-point enumeration on the implementation: every write/writev of each scenario fails with ENOSPC / EIO or is cut short, once or persistently, with the documented recovery protocol as driver",
+    level_text="30 scenarios (the C15 ones for named outputs plus descriptor outputs). For every write call k of the trace x {ENOSPC, EIO, short count} x {only call k, every later call to the same output}: a forked child runs the history reacting as documented (on the first exception: rotate_output(healthy, false), write_block(), destroy; otherwise rotate_output(healthy, true)). Clause 1: every output closed by a rotate_output that returned normally after the same history as the fault-free run must hold exactly the fault-free bytes. Clause 2: after an exception from a block write the buffered item count is unchanged, the rotate_output to the healthy destination returns normally and the recovery output is a complete valid file holding exactly the records of the failed block.",
+    level_note="A write that keeps returning 0 is not injected (libstdc++ retries forever; says nothing about c-dns). Failures of rename/open/close are outside the enumerated faults. Known findings D12a-c are listed in known_findings.json by (clause, sink kind, compression, whether the faulted output is the one closed).",
+    stages=[dict(harness="fault", variant="plain", args=["--mode", "fault"], link=["-rdynamic"])],
+    rule="(scenario, k, fault kind, persistence) tuples enumerated exhaustively; non-trivial = the injected point was reached; unreachable points are harness errors",
+    bound_quick="all 30 scenarios, every write call, 3 fault kinds x 2 persistence modes", bound_thorough="same",
+    assumptions=["C16 clause 1 is read as 'no silent loss': an exception no later than the rotate_output that closes the output (DESIGN 8.2)"],
+)
+ENGINES.append(dict(name="E-FAULT", path="harness/fault.cpp", serves_properties=["C15", "C16"], kind_free_text="exhaustive crash-point / write-fault enumeration with interposed write, writev, rename"))
